@@ -150,6 +150,7 @@ def main():
             "correspondence harness (harness/props/%s.py) and its tolerance policy" % prop.lower(),
         ] + list(getattr(mod, "TRUSTED", [])),
         "theorems": lean["obligations"],
+        "axioms_by_theorem": {k: v for k, v in lean.get("axioms", {}).items() if k in set(lean["obligations"])},
         "lean_problems": lean["problems"],
         "evaluations": res.evaluations,
         "distinct_nontrivial": len(res.nontrivial_keys),
